@@ -244,6 +244,19 @@ def check(case):
 
 
 def _check(case):
+    if case["cell"][0] == "lp":
+        # both orientations of the LP in every cell (the maximise path rewrites the cost vector around the solver call)
+        first = None
+        for mx in (bool(case.get("maximize")), not bool(case.get("maximize"))):
+            r = _check_one(dict(case, maximize=mx))
+            if r.kind == "violation":
+                return r
+            first = first or r
+        return first
+    return _check_one(case)
+
+
+def _check_one(case):
     kind, site, excname = case["cell"]
     exc = EXCS[excname]
     in_block = kind == "qp-in-recursion-block"
@@ -279,6 +292,14 @@ def _check(case):
                 P, _ = make_problem(case)
                 if case["prior_solve"]:
                     _solve(P, method, in_block)
+                    # the process's warning hook changes between two solves of the same problem (what logging.captureWarnings or
+                    # a test runner does): "as before the call" means the hook current at THAT call
+
+                    def _user_hook(*a_, **k_):
+                        return None
+                    warnings.showwarning = _user_hook
+                    if "hook-changed-after-first-solve" not in classes:
+                        classes.append("hook-changed-after-first-solve")
                 faults = [(site, excname, k)] + [tuple(t) for t in case["extra"]]
                 for (fs, fe, fk) in faults:
                     hook_before, limit_before = warnings.showwarning, sys.getrecursionlimit()
